@@ -55,6 +55,7 @@ type realm struct {
 	metaIDGen *wamp.IDGen
 
 	actionChan chan func()
+	closing    chan struct{}
 	stopped    chan struct{}
 
 	// Used by close() to wait for sessions to exit.
@@ -109,6 +110,7 @@ func newRealm(config *RealmConfig, broker *broker, dealer *dealer, logger stdlog
 		clients:     map[wamp.ID]*wamp.Session{},
 		testaments:  map[wamp.ID]testamentBucket{},
 		actionChan:  make(chan func()),
+		closing:     make(chan struct{}),
 		stopped:     make(chan struct{}),
 		metaIDGen:   new(wamp.IDGen),
 		metaDone:    make(chan struct{}),
@@ -159,10 +161,15 @@ func newRealm(config *RealmConfig, broker *broker, dealer *dealer, logger stdlog
 }
 
 func (r *realm) run() {
-	for action := range r.actionChan {
-		action()
+	defer close(r.stopped)
+	for {
+		select {
+		case action := <-r.actionChan:
+			action()
+		case <-r.closing:
+			return
+		}
 	}
-	close(r.stopped)
 }
 
 // close performs an orderly shutdown of the realm.
@@ -235,8 +242,10 @@ func (r *realm) close() {
 	}
 	r.shutdownSessions = nil
 
-	// Finally close realm's action channel.
-	close(r.actionChan)
+	// Finally stop the realm's goroutine. The action channel is not closed,
+	// since a client that is being attached may still look for an
+	// authenticator after the realm is closed.
+	close(r.closing)
 	<-r.stopped
 }
 
@@ -701,7 +710,8 @@ func (r *realm) authClient(sid wamp.ID, client wamp.Peer, details wamp.Dict) (*w
 // getAuthenticator finds the first authenticator registered for the methods.
 func (r *realm) getAuthenticator(methods []string) (auth auth.Authenticator, authMethod string) {
 	sync := make(chan struct{})
-	r.actionChan <- func() {
+	select {
+	case r.actionChan <- func() {
 		// Iterate through the methods and see if there is an Authenticator for
 		// the method.
 		if len(r.authenticators) != 0 {
@@ -714,8 +724,11 @@ func (r *realm) getAuthenticator(methods []string) (auth auth.Authenticator, aut
 			}
 		}
 		close(sync)
+	}:
+		<-sync
+	case <-r.stopped:
+		// The realm was closed while the client was being attached.
 	}
-	<-sync
 	return
 }
 
